@@ -19,6 +19,13 @@ wall-clock expiry):
                         failing on element k (or not at all).
   sharded_ignore_error  workers started with ignore_error=True, one record of one
                         shard raises: only that record may be missing.
+
+Scenario 'sharded_final_reply_death': a worker dies right AFTER it has served the
+last reply of a shard (the reply that carries the end marker): the reply reaches
+the driver, the death (exit with its alive=False notice, or an abrupt kill) is
+placed 0-8 ms after the reply left, i.e. between the worker's final reply and the
+driver's processing of it; the window is widened with outputs that are slow to
+un-pickle and with held-back replies.  Oracle as for every sharded case.
 """
 
 from __future__ import annotations
@@ -42,7 +49,10 @@ RULE = (
     'the last worker is never faulted (side condition: one worker stays usable); iterate_abort = W=2-3 '
     'workers, K=W..W+1 slow shards, an application error at a chosen record or at call 0-2 of a chosen '
     'worker, then a second pipeline through each worker alone; interleaved_failure = W=1-3, n=40-300 '
-    'elements, in-process last stage failing at element k or fault free. Non-trivial = '
+    'elements, in-process last stage failing at element k or fault free; sharded_final_reply_death = W=2-3, '
+    'K=W..W+2 shards (>= 2 final replies per run), iterate_batch_size 1-3 or 64 (a whole shard per reply), '
+    'outputs costing 2-10 ms each to un-pickle, a non-last worker exits (alive=False notice) or is killed '
+    '0-8 ms after its first reply carrying an end marker left, that reply held back 0-5 ms. Non-trivial = '
     'the plan has >= 1 fault that actually hit an executed call; distinct = hash of (driver, sizes, '
     'plan)')
 ASSUMPTIONS = [
@@ -54,16 +64,21 @@ ASSUMPTIONS = [
     'abort scenarios: a worker counts as permanently blocked only if, after the driver returned / raised and every transport call to the pool has returned, its client still lists a pending state (nothing can complete it: the driver closed its event loop); a pool counts as permanently holding workers only if the runner stopped its event loop while the remote stage still waits for coroutine futures of that loop. Anything that merely has not happened yet when the watchdog expires is inconclusive',
     'sharded_ignore_error: a server started with ignore_error=True skips the failing record only (what iterate(ignore_error=True) does in process): every other batch is delivered and aggregated; a run that raises the application error instead is accepted too',
     'iterate_abort: after an abort the failing shard is not retried (application errors are not retriable); outputs delivered before the abort must be batches of the reference run',
+  'sharded_final_reply_death: the final reply of the shard is delivered (it had left the worker before the death); the exiting worker notice is the pushed heartbeat(alive=False), modelled as in exit_notice by unregistering the address; the un-pickling cost of an output is a real sleep inside its __reduce__ target on the un-pickling thread; which of (notice seen first / reply processed first) happens is left to the OS scheduler, both orders must give the fault-free aggregate',
 ]
 REQUIRED = ['as_completed_cases', 'run_cases', 'sharded_cases', 'late_death_cases', 'no_deadline_cases', 'faults_hit', 'rejoin_cases', 'rejoin_phase2_cases',
             'tasks_delivered', 'fault_free_cases', 'app_error_cases', 'release_checks',
             'iterate_abort_cases', 'iterate_abort_other_shard_in_flight', 'iterate_abort_capacity_checks',
             'interleaved_cases', 'interleaved_failure_cases', 'interleaved_fault_free_cases',
-            'interleaved_failure_remote_stage_busy', 'ignore_error_cases']
+            'interleaved_failure_remote_stage_busy', 'ignore_error_cases',
+            'final_reply_death_cases', 'final_reply_deaths_hit']
 # Mechanism keys of the audited root causes (classified by the scenario of the case).
 K_ITER_ABORT = 'iterate-abort-leaks-capacity-placeholder'
 K_INTERLEAVED = 'interleaved-failure-leaves-workers-acquired'
 K_IGNORE_TRUNC = 'ignore-error-server-truncates-shard-after-application-error'
+# WorkerPool.iterate() retries the shard of a worker it sees dead while the shard's
+# coroutine already holds the last reply and delivers the shard's state: merged twice
+K_LAST_REPLY = 'dead-worker-last-reply-state-delivered-and-shard-retried'
 CHUNK_TIMEOUT_S = {'quick': 500, 'thorough': 3400}
 FAULT_KINDS = ['lost_request', 'lost_reply', 'slow', 'die_before', 'die_after', 'restart']
 
@@ -116,6 +131,22 @@ def gen_cases(rng, n):
   return cases
 
 
+def gen_final_reply_death_case(rng):
+  """A non-last worker dies right after the first final reply (end marker) it served."""
+  W = rng.randint(2, 3)
+  K = W + rng.randint(0, 2)
+  rec = rng.randint(1, 3)
+  per_shard = rng.randint(2, 6)             # batches per shard
+  return {'driver': 'sharded_final_reply_death', 'W': W, 'par': 1, 'K': K, 'faults': [],
+          'n': rec * per_shard * K, 'rec': rec,
+          # 64: one reply carries the whole shard and its end marker
+          'ibs': rng.choice([1, 2, 3, 64, 64, 64]), 'prefetch': rng.choice([2, 2, 64]),
+          'victim': rng.randrange(W - 1),
+          'death': rng.choice(['exit_notice', 'exit_notice', 'exit_notice', 'kill']),
+          'after_ms': rng.choice([0, 1, 3, 8]), 'reply_delay_ms': rng.choice([0, 0, 5]),
+          'load_delay_ms': rng.choice([2, 5, 10])}
+
+
 def enumerated_cases(chunk, chunks):
   """The enumerated single-fault sub-space, strided over the chunks."""
   out = []
@@ -141,9 +172,9 @@ class Runner:
     self.courier = courier
     cwork.setup(scale=SCALE)
 
-  def make_pool(self, W, par, ibs=1, call_timeout=CALL_TIMEOUT):
+  def make_pool(self, W, par, ibs=1, call_timeout=CALL_TIMEOUT, **server_kwargs):
     from ml_metrics._src.chainables import courier_worker
-    servers = self.cwork.start_servers(W, 'c06w')
+    servers = self.cwork.start_servers(W, 'c06w', **server_kwargs)
     addrs = [s.address for s in servers]
     raw = {s.address: s._server.address for s in servers}  # pylint: disable=protected-access
     pool = courier_worker.WorkerPool(
@@ -359,6 +390,79 @@ def run_sharded_late_death(ctx, runner, case):
             'locked': sum(1 for w in pool.all_workers if w.is_locked()),
             'last_healthy': True}
   finally:
+    runner.cwork.stop_servers(servers, join_s=0.5)
+
+
+def run_sharded_final_reply_death(ctx, runner, case):
+  """A worker dies right after it served the last reply of a shard."""
+  import threading
+  from vlib import c06lib, c16lib
+  from ml_metrics._src.chainables import orchestrate
+  from ml_metrics._src.utils import courier_utils
+  W = case['W']
+  servers, addrs, raw, pool = runner.make_pool(W, 1, case['ibs'], prefetch_size=case['prefetch'])
+  raw_list = [raw[a] for a in addrs]
+  sim = runner.courier.sim
+  spec = {'n': case['n'], 'rec': case['rec'], 'ops': [['affine', {'a': 3, 'b': 1}]],
+          'agg': 'sum', 'fused': True, 'num_threads': 0,
+          'load_delay': case['load_delay_ms'] / 1000.0}
+  victim = servers[case['victim']]
+  victim_raw = raw_list[case['victim']]
+  hits, state = [], {'final_pending': False, 'done': False}
+  lock = threading.Lock()
+
+  def on_final():
+    with lock:
+      if not state['done']:
+        state['final_pending'] = True
+
+  def die():
+    time.sleep(case['after_ms'] / 1000.0)     # real milliseconds (this module's clock is not dilated)
+    if case['death'] == 'exit_notice':
+      # graceful exit: the alive=False notice reaches the driver, then the process is gone
+      courier_utils.worker_registry().unregister(victim.address)
+      sim.kill(victim_raw)
+      sim.refusing.add(victim_raw)
+      sim.refusing.add(victim.address)
+    else:
+      sim.kill(victim_raw)
+
+  def reply_delay(addr, method):
+    if addr != victim_raw or method != 'next_batch_from_generator':
+      return 0
+    with lock:
+      mine = state['final_pending'] and not state['done']
+      if mine:
+        state['done'] = True
+        state['final_pending'] = False
+    if not mine:
+      return 0
+    hits.append((addr, method, -1, 'death_after_final_reply:' + case['death']))
+    threading.Thread(target=die, daemon=True).start()
+    return case['reply_delay_ms'] / 1000.0
+
+  try:
+    pool.wait_until_alive(deadline_secs=HB_THRESHOLD, minimum_num_workers=W)
+    c06lib.tap_final_replies(victim, on_final)
+    sim.reply_delay = reply_delay
+    rq, outs = queue.SimpleQueue(), []
+
+    def go():
+      for b in orchestrate.sharded_pipelines_as_iterator(
+          pool, c06lib.define_pipeline_slow_outputs, spec, num_shards=case['K'], result_queue=rq):
+        outs.append(b)
+
+    finished, _, exc = runner.cwork.run_with_watchdog(go, 120)
+    sim.reply_delay = None
+    aggs = _collect_aggs(rq, finished, exc)
+    ref_outs, ref_agg = c16lib.reference(spec)
+    return {'finished': finished, 'exc': exc, 'outs': outs, 'aggs': aggs,
+            'ref_outs': ref_outs, 'ref_agg': ref_agg, 'hits': hits,
+            'acquired': len(pool.acquired_workers),
+            'locked': sum(1 for w in pool.all_workers if w.is_locked()),
+            'last_healthy': _healthy_last_worker(runner, raw_list[-1])}
+  finally:
+    sim.reply_delay = None
     runner.cwork.stop_servers(servers, join_s=0.5)
 
 
@@ -871,6 +975,8 @@ def _fault_sig(case):
     return 'late_death'
   if case['driver'] == 'sharded_rejoin':
     return 'rejoin'
+  if case['driver'] == 'sharded_final_reply_death':
+    return 'final_reply_' + case['death']
   return '+'.join(sorted({f[2] for f in case['faults']})) or 'none'
 
 
@@ -878,12 +984,16 @@ def judge(ctx, case, res):
   driver = case['driver']
   ctx.count({'as_completed': 'as_completed_cases', 'run': 'run_cases',
              'sharded': 'sharded_cases', 'sharded_rejoin': 'rejoin_cases',
-             'sharded_late_death': 'late_death_cases'}[driver])
+             'sharded_late_death': 'late_death_cases',
+             'sharded_final_reply_death': 'final_reply_death_cases'}[driver])
   hit = len(res['hits'])
   ctx.count('faults_hit', hit)
+  if driver == 'sharded_final_reply_death' and hit:
+    ctx.count('final_reply_deaths_hit')
   if case.get('no_deadline'):
     ctx.count('no_deadline_cases')
-  if not case.get('faults') and case.get('app_error') is None and driver not in ('sharded_late_death', 'sharded_rejoin'):
+  if not case.get('faults') and case.get('app_error') is None and driver not in ('sharded_late_death', 'sharded_rejoin',
+                                                                              'sharded_final_reply_death'):
     ctx.count('fault_free_cases')
   ctx.case((driver, {k: v for k, v in case.items()}), hit >= 1)
   sig = _fault_sig(case)
@@ -919,7 +1029,12 @@ def judge(ctx, case, res):
     if app is not None:
       ctx.count('app_error_cases')
     expected = [i for i in range(T) if i != app]
-    if exc is not None and app is None:
+    if (exc is not None and driver == 'run' and not hit and not case.get('faults')
+        and getattr(exc, 'code', 0) == 4):
+      # WorkerPool.run() has no retry: a call that runs into the (real-time) deadline of
+      # the transport although no fault was injected is machine load, not a verdict.
+      ctx.inconclusive_case('run(): call deadline exceeded without an injected fault (load)', case)
+    elif exc is not None and app is None:
       ctx.violation('driver_raised', case, {'error': exc_text[:300], 'hits': res['hits']},
                     mechanism=f'{driver}:raises:{type(exc).__name__}:{sig}')
     elif app is not None and not case.get('ignore_failures'):
@@ -982,10 +1097,24 @@ def judge(ctx, case, res):
                       {'count': len(finals), 'hits': res['hits']},
                       mechanism=f'sharded:final-aggregate-count:{sig}')
       elif finals[0].agg_result != res['ref_agg']:
-        ctx.violation('aggregate_differs_from_fault_free', case,
-                      {'got': repr(finals[0].agg_result), 'want': repr(res['ref_agg']),
-                       'hits': res['hits']},
-                      mechanism=K_ZINIT if zombie_init else f'sharded:aggregate-differs:{sig}')
+        mech = K_ZINIT if zombie_init else f'sharded:aggregate-differs:{sig}'
+        detail = {'got': repr(finals[0].agg_result), 'want': repr(res['ref_agg']),
+                  'hits': res['hits']}
+        if driver == 'sharded_final_reply_death' and hit:
+          # Classified by the input class: the death was placed right after the final
+          # reply of a shard of that worker (and did hit), no other fault in the case;
+          # and something was aggregated more than once (a lost state is another defect).
+          try:
+            detail['elements_aggregated'] = finals[0].agg_result['agg'][1]
+            detail['elements_of_the_dataset'] = res['ref_agg']['agg'][1]
+            if detail['elements_aggregated'] > detail['elements_of_the_dataset']:
+              mech = K_LAST_REPLY
+          except Exception:  # pylint: disable=broad-exception-caught
+            pass
+          detail['error_raised'] = None
+          detail['batches_delivered'] = len(got)
+          detail['batches_of_the_dataset'] = len(want)
+        ctx.violation('aggregate_differs_from_fault_free', case, detail, mechanism=mech)
   if res['acquired'] or res['locked']:
     ctx.violation('workers_not_released', case,
                   {'acquired_by_pool': res['acquired'], 'locked': res['locked'],
@@ -1014,6 +1143,8 @@ def run_one(ctx, runner, case):
     res = run_sharded_late_death(ctx, runner, case)
   elif case['driver'] == 'sharded_rejoin':
     res = run_sharded_rejoin(ctx, runner, case)
+  elif case['driver'] == 'sharded_final_reply_death':
+    res = run_sharded_final_reply_death(ctx, runner, case)
   else:
     res = run_sharded(ctx, runner, case)
   judge(ctx, case, res)
@@ -1049,6 +1180,10 @@ def run_chunk(ctx, spec):
                   'idx': rng.randint(1, 3), 'K': W + rng.randint(0, 2),
                   'n': rng.choice([12, 20, 30]), 'n2': rng.choice([4, 9]),
                   'rec': rng.randint(1, 2), 'ibs': rng.randint(1, 2)})
+  # (own generator: the cases above and below stay what they were)
+  rng3 = random.Random(spec['rseed'] * 1000003 + spec['chunk'] * 31 + 19)
+  for _ in range(1 if spec['tier'] == 'quick' else 8):
+    cases.append(gen_final_reply_death_case(rng3))
   # -- abort scenarios -----------------------------------------------------------
   for _ in range(1 if spec['tier'] == 'quick' else 8):
     W = rng.randint(2, 3)
